@@ -6,6 +6,7 @@ import Fx.XGen
 import Fx.GenDriver
 import Fx.OutputOk
 import Fx.Supported
+import Fx.Finite
 import Fx.Lemmas.Consumed
 namespace Fx
 
@@ -78,7 +79,7 @@ def outputOkRequest (f : List String) : String :=
         | .ok a =>
           (match generateModule a with
            | .ok m => "ok outputok=" ++ toString (outputOk a m) ++ " plansok=" ++ toString m.plans.Ok ++
-               " sizeexact=" ++ toString m.plans.SizeExact' ++ " supported=" ++ toString (Supported a)
+               " sizeexact=" ++ toString m.plans.SizeExact' ++ " supported=" ++ toString (Supported a) ++ " finite=" ++ toString m.plans.finite
            | _ => "nogen")
         | _ => "nogen")
      | none => "bad-op")
